@@ -37,13 +37,56 @@ typedef OrderedValuesHashtable<HKey, int> OValsT;
 
 struct PartSpec { const char * name; int kind; unsigned mask; int startSet; int depthQ, depthT; double share; bool thoroughOnly; };
 
+// The engine attributes a worker death by re-running the lost histories in children that _exit() before the World is destroyed.  A crash that happens while
+// the World is torn down (iterators A, B deleted, then tables t, u) -- exactly the "iterator outlives / is destroyed after a mutation" hazard of this property --
+// would then only show up as a cap.  This pass finds such histories: every history of the unfinished level is re-run in a child INCLUDING the teardown.
+template <class M> static void AttributeTeardownDeaths(seqx::Explorer<M> & ex, M & model, const PartSpec & ps, const seqx::Stats & S, const verif::Args & args, verif::Result & res)
+{
+   const double tEnd = verif::NowS() + 120; int found = 0; std::map<std::string, int> perKey;
+   for (int32_t ni = 0; ni < (int32_t)ex._nodes.size() && found < 6 && verif::NowS() < tEnd; ni++) {
+      std::vector<int> ops; const int start = ex.History(ni, ops); if ((int)ops.size() != S.depthCompleted) continue;
+      ops.push_back(0);
+      fflush(stdout); fflush(stderr);
+      pid_t pid = fork();
+      if (pid == 0) { int dn = open("/dev/null", O_WRONLY); if (dn >= 0) dup2(dn, 2); for (int op = 0; op < model.NumOps(); op++) { ops.back() = op; typename M::World w; std::string m, k; ex.Replay(w, start, ops, m, k); } _exit(0); }
+      int st = 0; waitpid(pid, &st, 0); if (WIFEXITED(st) && WEXITSTATUS(st) == 0) continue;
+      for (int op = 0; op < model.NumOps(); op++) {
+         ops.back() = op; fflush(stdout);
+         pid_t p2 = fork();
+         if (p2 == 0) { int dn = open("/dev/null", O_WRONLY); if (dn >= 0) dup2(dn, 2); { typename M::World w; std::string m, k; ex.Replay(w, start, ops, m, k); } _exit(0); }
+         int s2 = 0; waitpid(p2, &s2, 0); if (WIFEXITED(s2) && WEXITSTATUS(s2) == 0) continue;
+         const std::string what = WIFSIGNALED(s2) ? verif::Fmt("sig%d", WTERMSIG(s2)) : verif::Fmt("exit%d", WEXITSTATUS(s2));
+         const std::string key = "fatal:teardown:" + what + ":" + model.OpName(op);
+         found++;
+         if (perKey[key]++ < 2) res.AddViolation(key, std::string(ps.name) + ": process death (" + what + "; 87=ASan, 88=UBSan, 6=abort) while iterators A, B and then tables t, u are destroyed after this history",
+                                                 res.WriteReplay(args, ps.name, ex.HistoryJson(start, ops) + ", \"observed\": \"process death during teardown of the world after the history\"}"));
+      }
+   }
+   if (!found) res.AddViolation(std::string("fatal:unattributed-worker-death:") + ps.name, std::string(ps.name) + ": a worker process died (" + S.cap + ") and neither the engine nor the teardown pass could attribute it to a history within 120 s; re-run the part with --workers 1 to see the report", "");
+}
+
 template <class M> static int RunPart(M & model, const PartSpec & ps, int depth, const verif::Args & args, verif::Result & res, double absDeadline, const verif::ReplayDoc * replay)
 {
    seqx::Explorer<M> ex(model, args, res, ps.name);
    if (replay) return ex.ReplayFile(*replay);
    ex.SetDeadline(absDeadline);
+   const size_t v0 = res.violations.size();
+   {  // every start state is built, checked by the full oracle and torn down in a child of its own, so that a start state that already breaks is a reported case
+      std::vector<verif::ParRecord> recs; std::vector<size_t> lost;
+      verif::ParMap((size_t)model.NumStarts(), args.workers, [&](size_t i, std::string & rec) { typename M::World w; model.Init(w, (int)i); std::string m, k; if (!model.CheckAll(w, true, m, k)) rec = k + '\n' + m + model.Dump(w); }, recs, &lost);
+      for (size_t i = 0; i < recs.size(); i++) if (!recs[i].data.empty()) {
+         const std::string & d = recs[i].data; const size_t nl = d.find('\n');
+         res.AddViolation(d.substr(0, nl) + ":start-state", std::string(ps.name) + ": start state " + model.StartName((int)recs[i].idx) + ": " + d.substr(nl + 1), res.WriteReplay(args, ps.name, ex.HistoryJson((int)recs[i].idx, std::vector<int>()) + "}"));
+      }
+      for (size_t i = 0; i < lost.size(); i++)
+         res.AddViolation("fatal:start-state", std::string(ps.name) + ": process death while start state " + model.StartName((int)lost[i]) + " is built, checked and destroyed", res.WriteReplay(args, ps.name, ex.HistoryJson((int)lost[i], std::vector<int>()) + "}"));
+   }
    seqx::Stats S = ex.Run(depth);
    res.parts.back().rule = model.Rule(depth);
+   if (!S.exhaustive && S.cap.compare(0, 12, "worker death") == 0) {
+      bool attributed = false; for (size_t i = v0; i < res.violations.size(); i++) if (res.violations[i].key.compare(0, 6, "fatal:") == 0) attributed = true;
+      if (!attributed) AttributeTeardownDeaths(ex, model, ps, S, args, res);
+   }
    fprintf(stderr, "C09[%s]: states=%llu transitions=%llu depth=%d exhaustive=%d outcomes=%llu violations=%llu cap='%s' wall=%.1fs\n", ps.name, (unsigned long long)S.states, (unsigned long long)S.transitions,
            S.depthCompleted, (int)S.exhaustive, (unsigned long long)S.distinctOutcomes, (unsigned long long)S.violations, S.cap.c_str(), verif::NowS() - args.t0);
    return 0;
@@ -63,7 +106,7 @@ int main(int argc, char ** argv)
       {"boundary255-wide", 0, M_BWIDE,          SS_BOUNDW, 2, 2, 0.03, false},
       {"boundary255-deep", 0, M_HUGE,           SS_BOUNDD, 3, 4, 0.04, false},
       {"boundary65k",      0, M_HUGE,           SS_HUGE,   1, 2, 0.05, false},
-      {"boundary65k-deep", 0, M_HUGE,           SS_HUGED,  2, 3, 0.10, true},
+      {"boundary65k-deep", 0, M_HUGED,          SS_HUGED,  2, 3, 0.08, true},
       {"ordered-keys",     1, M_ORD,            SS_ORD,    3, 4, 0.06, false},
       {"ordered-values",   2, M_ORD,            SS_ORD,    3, 4, 0.07, false},
       {"alias",            0, M_ALIAS,          SS_ALIAS,  2, 3, 0.02, false},
